@@ -134,7 +134,20 @@ def run_shard(params, rec):
         if same:
             return X.subst(pattern, dict((j, value_for(j)) for j in jokers))
 
+        M61 = (1 << 61) - 1      # CPython hashes integers modulo this prime
+        collide = {}
+        if rng.random() < 0.2:
+            for j in jokers:
+                if j.size >= 62:
+                    collide[j] = [rng.getrandbits(rng.choice([3, 16, 60])), 0]
+
         def fill(p):
+            if p in collide:
+                # different values whose hashes are equal: x and x + (2**61 - 1)
+                c, n = collide[p]
+                collide[p][1] += 1
+                rec.count("fillings_with_equal_hashes")
+                return ExprInt((c + (n % 2) * M61) & ((1 << p.size) - 1), p.size)
             if p in jokers:
                 return value_for(p)
             ch = X.children(p)
